@@ -102,12 +102,55 @@ def int_impl_j(ctx):
     over = {"I": "{J}", "X": "_{J}"}
     return [("decl", "int.constants", over)] + [("stub", u, over) for u in INT_METHODS]
 
-IARRAY_PRELUDE = ["iarray.rs", word_j(), "chunk.rs"]
-def slice_ia(mode="stub"):
-    return [(mode, "slice.int_len"), (mode, "slice.get_int"), (mode, "slice.set_int")]
+def iarray_prelude(ctx):
+    """word vocabulary for the chunk type J under suffix _J, chunk spec for (container word I, chunk J)"""
+    return ["iarray.rs", word_j(), ("chunk.rs", {"Y": "_{J}"})]
 
-GROUPS["bvf_iarray"] = dict(name="bvf_iarray", prelude=BVF_PRELUDE + IARRAY_PRELUDE,
-    items=lambda ctx: BVF_BASE + int_impl_j(ctx) + stub(BVF_CORE) + slice_ia() + verify(["bvf.int_len", "bvf.get_int"]))
+YJ = {"Y": "_{J}"}
+def slice_ia(mode="stub", over=YJ):
+    return [(mode, "slice.int_len", over), (mode, "slice.get_int", over), (mode, "slice.set_int", over)]
+def with_ctx(entries, over):
+    return [(e[0], e[1], over) for e in entries]
+
+GROUPS["bvf_iarray"] = dict(name="bvf_iarray", prelude=lambda ctx: BVF_PRELUDE + iarray_prelude(ctx),
+    items=lambda ctx: BVF_BASE + int_impl_j(ctx) + stub(BVF_CORE) + slice_ia() + with_ctx(verify(["bvf.int_len", "bvf.get_int"]), YJ))
+
+from units import INT_BITS
+
+def pair(i, j, **kw):
+    """job ctx for an operation on Bvf<I,..> (self) with an operand over word type J"""
+    c = {"I": i, "J": j, "XJ": "" if i == j else "_" + j}
+    c.update(kw)
+    return c
+
+BITOPS = {
+    "and": dict(OPT="BitAndAssign", OPM="bitand_assign", BOP="&&", WOP="&", WL="lemma_wbit_and"),
+    "or": dict(OPT="BitOrAssign", OPM="bitor_assign", BOP="||", WOP="|", WL="lemma_wbit_or"),
+    "xor": dict(OPT="BitXorAssign", OPM="bitxor_assign", BOP="!=", WOP="^", WL="lemma_wbit_xor"),
+}
+
+RHS_J = {"I": "{J}", "J": "{I}", "X": "{XJ}", "Y": ""}     # container word J, chunk type I
+
+def rhs_bvf_prelude(ctx):
+    """vocabulary for an operand Bvf<J,N2>: word-level names under suffix XJ, wf/bits of Bvf<J,_>, chunk spec (J words -> I chunks)"""
+    p = ["iarray.rs"]
+    if ctx["J"] != ctx["I"]:
+        p += [("word.rs", {"I": "{J}", "X": "_{J}"}), ("bvf.rs", {"I": "{J}", "X": "_{J}"})]
+    p += [("chunk.rs", RHS_J)]
+    same = INT_BITS[ctx["I"]] == INT_BITS[ctx["J"]]
+    p += ["cast_same.rs" if same else "cast_same_dummy.rs"]
+    return p
+
+def rhs_bvf_items(ctx):
+    """stubs an operation needs to read a Bvf<J,N2> operand in chunks of I"""
+    it = int_impl_j(ctx)
+    it += [("stub", "cast.from", {"A": "{J}", "B": "{I}"}), ("stub", "cast.to", {"A": "{J}", "B": "{I}"})]
+    it += slice_ia("stub", RHS_J)
+    it += [("stub", "bvf.int_len", RHS_J), ("stub", "bvf.get_int", RHS_J)]
+    return it
+
+GROUPS["bvf_bitops"] = dict(name="bvf_bitops", prelude=lambda ctx: BVF_PRELUDE + rhs_bvf_prelude(ctx),
+    items=lambda ctx: BVF_BASE + rhs_bvf_items(ctx) + stub(BVF_CORE) + verify(["bvf.binop_bvf"]))
 
 # -------------------------------------------------------------------------------------------------
 # property -> jobs
